@@ -9,10 +9,10 @@ Import ListNotations.
 Local Open Scope Z_scope.
 
 (* reader fast paths refuse when a barrier is running or pending, the queue is dirty, or anything is queued ahead *)
-Theorem C04_sync_reader_fastpath_guards_partial : forall s tail,
+Theorem C04_sync_reader_fastpath_guards_partial : forall s tail w,
   (nz (f_dq_state_is_dirty s) = true \/ nz (f_dq_state_has_pending_barrier s) = true \/
    nz (f_dq_state_is_sync_runnable s) = false \/ nz tail = true) ->
-  exists r, f_dispatch_queue_try_reserve_sync_width 0 tail s = NoCommit r [].
+  exists r, f_dispatch_queue_try_reserve_sync_width 0 tail s w = NoCommit r [].
 Proof. exact reader_fastpath_guards. Qed.
 Print Assumptions C04_sync_reader_fastpath_guards_partial.
 Theorem C04_async_reader_fastpath_guards_partial : forall s,
@@ -33,7 +33,7 @@ Print Assumptions C04_barrier_lock_exclusive_partial.
 
 Example C04_nonvacuous :
   (* a concurrent queue (width 4094) with one reader in flight admits a second one, but not once a barrier is pending *)
-  f_dispatch_queue_try_reserve_sync_width 0 0 (init_st_plain 4094 + 2199023255552) =
+  f_dispatch_queue_try_reserve_sync_width 0 0 (init_st_plain 4094 + 2199023255552) 4094 =
     Commit (init_st_plain 4094 + 2 * 2199023255552) 1 /\
-  (exists r, f_dispatch_queue_try_reserve_sync_width 0 0 (init_st_plain 4094 + 2199023255552 + 1099511627776) = NoCommit r []).
+  (exists r, f_dispatch_queue_try_reserve_sync_width 0 0 (init_st_plain 4094 + 2199023255552 + 1099511627776) 4094 = NoCommit r []).
 Proof. split; [vm_compute; reflexivity | eexists; vm_compute; reflexivity]. Qed.
